@@ -542,6 +542,10 @@ def synthesize(update_working_block=True, merge_io_vectors=True, block=None):
                             new_name += '[' + str(i) + ']'
                         new_wirevector = wirevector.__class__(name=new_name, bitwidth=1)
                         block_out.io_map[orig_io_map[wirevector]].append(new_wirevector)
+                elif isinstance(wirevector, Register) and wirevector.reset_value is not None:
+                    new_wirevector = wirevector.__class__(
+                        name=new_name, bitwidth=1, reset_value=(wirevector.reset_value >> i) & 0x1)
+                    block_out.reg_map[orig_reg_map[wirevector]].append(new_wirevector)
                 else:
                     new_wirevector = wirevector.__class__(name=new_name, bitwidth=1)
                     if isinstance(wirevector, Register):
